@@ -1154,6 +1154,9 @@ class _Ev:
         """``R(a, b).field`` is the argument; ``R(a, b).method(x)`` / ``.property`` of a
         one-expression member is that expression over the arguments (records are immutable)"""
         recs = getattr(self.w, 'records', None)
+        rc_ = getattr(self.w, 'record_consts', None)
+        if rc_ and isinstance(recv, ast.Name) and recv.id in rc_ and not any(recv.id in s for s in self.shadow) and recv.id not in self.st.env:
+            recv = rc_[recv.id]
         if not recs or not (isinstance(recv, ast.Call) and isinstance(recv.func, ast.Name) and recv.func.id in recs):
             return None
         fields, meths, props = recs[recv.func.id]
